@@ -448,7 +448,10 @@ def judge(ctx, sub, cases, impl, model, pred, max_report=3):
     """property failures (shortest case first) are reported before mere impl/model differences"""
     props, diffs = [], []
     for c, a, m in zip(cases, impl, model):
-        why = pred(c, a)
+        if a == "<not-run>":
+            ctx.count(sub + ".not-run-after-crashes")
+            continue
+        why = "the process crashed (sanitizer report / abort) on this case" if a == "<crashed>" else pred(c, a)
         if why is not None:
             props.append((len(c), c, a, why))
         elif a != m:
@@ -492,6 +495,14 @@ def run_impl(ctx, sub, exe, cases):
         again, _ = vlib.run_sharded(exe, [cases[i] for i in todo], env=ENV)
         for i, a in zip(todo, again):
             impl[i] = a
+    # whatever is still unresolved is run one case per process (bounded), so that only cases on
+    # which the driver really dies are blamed
+    rest = [i for i, a in enumerate(impl) if a.startswith("<no-output")]
+    for i in rest[:400]:
+        out, _ = vlib.run_sharded(exe, [cases[i]], shards=1, env=ENV)
+        impl[i] = out[0] if not out[0].startswith("<no-output") else "<crashed>"
+    for i in rest[400:]:
+        impl[i] = "<not-run>"
     return impl
 
 
